@@ -474,6 +474,16 @@ func runC09(e *Env) {
 			cases = append(cases, c09Case{Label: "inconsistent-dictionary/" + name, Args: append(append([]string{}, cmd...), "--chord", "{DIR}/c.yml"), Stdin: inst("", okValues), Files: map[string]string{"c.yml": d}, Expect: "fail"})
 		}
 	}
+	// file-level problems are refused by the listing commands too (they read the files without resolving them)
+	for _, name := range []string{"unnamed", "no-content", "not-a-list", "binary"} {
+		cases = append(cases, c09Case{Label: "inconsistent-dictionary/" + name + "/listing", Args: []string{"info", "chord", "list", "--chord", "{DIR}/c.yml"}, Files: map[string]string{"c.yml": badDicts[name]}, Expect: "fail"})
+	}
+	for _, cmd := range [][]string{{"info", "chord", "list", "--chord"}, {"info", "attr", "list", "--attr"}, {"info", "chord", "describe", "-t", "C", "--chord"}, {"info", "attr", "describe", "-t", "Major3", "--attr"}, {"write", "conv", "-c", "cmt", "--attr"}} {
+		cases = append(cases, c09Case{Label: "inconsistent-dictionary/missing-file", Args: append(append([]string{}, cmd...), "{DIR}/nope.yml"), Stdin: inst("", okValues), Expect: "fail"})
+		cases = append(cases, c09Case{Label: "inconsistent-dictionary/directory", Args: append(append([]string{}, cmd...), "{DIR}"), Stdin: inst("", okValues), Expect: "fail"})
+		cases = append(cases, c09Case{Label: "inconsistent-dictionary/broken-yaml", Args: append(append([]string{}, cmd...), "{DIR}/b.yml"), Stdin: inst("", okValues), Files: map[string]string{"b.yml": "- name: [unclosed\n"}, Expect: "fail"})
+	}
+	cases = append(cases, c09Case{Label: "inconsistent-dictionary/unnamed-attribute/listing", Args: []string{"info", "attr", "list", "--attr", "{DIR}/a.yml"}, Files: map[string]string{"a.yml": "- name: \"\"\n  degree: \"3\"\n"}, Expect: "fail"})
 	cases = append(cases, c09Case{Label: "inconsistent-dictionary/unnamed-attribute", Args: []string{"write", "--attr", "{DIR}/a.yml"}, Stdin: inst("", okValues), Files: map[string]string{"a.yml": "- name: \"\"\n  degree: \"3\"\n"}, Expect: "fail"})
 	cases = append(cases, c09Case{Label: "inconsistent-dictionary/missing-file", Args: []string{"write", "--chord", "{DIR}/nope.yml"}, Stdin: inst("", okValues), Expect: "fail"})
 	cases = append(cases, c09Case{Label: "inconsistent-dictionary/directory", Args: []string{"write", "--chord", "{DIR}"}, Stdin: inst("", okValues), Expect: "fail"})
@@ -531,7 +541,7 @@ func runC09(e *Env) {
 	nTable := len(cases) - nShort - nMut
 
 	// (d) flag values: robustness only
-	vals := []string{"", "0", "-1", "abc", "1e3", "18446744073709551615", "18446744073709551616", strings.Repeat("9", 300), "\xff\xfe", "C", "1/2"}
+	vals := []string{"é", "ép", "♭p", "日本語", "p\u0301", "", "0", "-1", "abc", "1e3", "18446744073709551615", "18446744073709551616", strings.Repeat("9", 300), "\xff\xfe", "C", "1/2"}
 	flagSets := []struct {
 		cmd   []string
 		stdin string
@@ -569,6 +579,24 @@ func runC09(e *Env) {
 	add("debug", "fail", "C[1]{bpm=0}", "text", "conv", "syllable", "--debug")
 	add("debug", "ok", c09ValidDoc, "write", "--debug")
 	add("debug", "ok", textSeeds[0].text, "text", "conv", "syllable", "--debug")
+	// large inputs must be handled promptly
+	bigText := strings.Repeat("C/E[1,1/2]{txt=a} ", 4000)
+	bigDeg := strings.Repeat("5_7/3[1] 1[2] ", 6000)
+	bigDoc := strings.Repeat("- chord:\n    degree: \"5\"\n    name: \"7\"\n  values:\n    - \"1\"\n- values:\n    - \"1/3\"\n", 3000)
+	add("large-input", "ok", bigText, "text", "conv", "syllable")
+	add("large-input", "ok", bigText, "text", "parse")
+	add("large-input", "ok", bigDeg, "text", "conv", "degree")
+	add("large-input", "ok", bigDoc, "write")
+	add("large-input", "ok", bigDoc, "write", "event")
+	add("large-input", "ok", bigDoc, "write", "conv", "-c", "cmt")
+	add("large-input", "ok", bigDoc, "write", "parse", "--track", "16")
+	add("large-input", "any", bigText+"]", "text", "conv", "syllable")
+	add("large-input", "any", strings.Repeat("{", 50000), "text", "parse")
+	add("large-input", "any", strings.Repeat("C", 50000), "text", "parse")
+	add("large-input", "any", "C"+strings.Repeat("m", 100000)+"[1]", "text", "conv", "syllable")
+	add("large-input", "any", "C[1]{a="+strings.Repeat("x", 100000)+"}", "text", "conv", "syllable")
+	add("large-input", "any", strings.Repeat("- ", 20000)+"a\n", "write")
+	add("large-input", "any", strings.Repeat("[", 20000), "write")
 	// very large numbers wherever a number can be written
 	for _, n := range []string{"4294967295", "4294967296", "50000000", "99999999999999", "18446744073709551615", "18446744073709551616", "99999999999999999999999"} {
 		add("huge-number", "any", n+"[1]", "text", "conv", "degree")
